@@ -707,6 +707,8 @@ def c17(ctx):
     rnd = ctx.path("rnd.ndjson")
     vlib.harness(["gen", "tok", ctx.seed + 3, 240 if q else 3000, rnd])
     tok_judge(ctx, rnd, "B", {"C17"}, keep=lambda c: c["kind"] == "byte")
+    # one group per character also on texts of more than 65 535 bytes (CR LF across byte 65536)
+    tok_long(ctx, {"C17"})
     coo_runs(ctx)
 
 
